@@ -62,7 +62,7 @@ var c06ReplicaSnippets = []string{
 	"if m.Header.Type == bgp.BGP_MSG_UPDATE && useRevisedError { factor := e.(*bgp.MessageError) handling = factor.ErrorHandling",
 	"case bgp.ERROR_HANDLING_AFISAFI_DISABLE: handling = bgp.ERROR_HANDLING_SESSION_RESET } } else { handling = bgp.ERROR_HANDLING_SESSION_RESET } return handling",
 	"if err != nil { if m == nil { handling = bgp.ERROR_HANDLING_SESSION_RESET } else { handling = h.handlingError(m, err, useRevisedError) }",
-	"if handling != bgp.ERROR_HANDLING_SESSION_RESET { ok, ve := bgp.ValidateUpdateMsg(body, rfMap, h.fsm.isEBGP, h.fsm.isConfed, h.allowLoopback) if !ok { if hv := h.handlingError(m, ve, useRevisedError); hv > handling { validationErr = ve handling = hv",
+	"if handling == bgp.ERROR_HANDLING_NONE || handling == bgp.ERROR_HANDLING_ATTRIBUTE_DISCARD { ok, ve := bgp.ValidateUpdateMsg(body, rfMap, h.fsm.isEBGP, h.fsm.isConfed, h.allowLoopback) if !ok { if hv := h.handlingError(m, ve, useRevisedError); hv > handling { validationErr = ve handling = hv",
 }
 
 // c06ReplicaDrift reports which of the mirrored statements are no longer in the source of the receive
@@ -172,11 +172,11 @@ func c06Pipeline(raw []byte, pt c06lib.PeerType, revised, noV4 bool) (g c06Got) 
 		g.Stage, g.ErrText = "decode", me.Message
 		g.Code, g.Sub = me.TypeCode, me.SubTypeCode
 	}
-	// mirrors recvMessageloop, case BGP_MSG_UPDATE (pkg/server/fsm.go, "if handling != bgp.ERROR_HANDLING_SESSION_RESET {"
-	// ... "if hv := h.handlingError(m, ve, useRevisedError); hv > handling {"): the attribute checks run unless the
-	// decoder already asked for a reset, and the stronger of the two reactions is kept (c06ReplicaDrift checks
-	// that those statements are still in the source)
-	if handling != ERROR_HANDLING_SESSION_RESET {
+	// mirrors recvMessageloop, case BGP_MSG_UPDATE (pkg/server/fsm.go, "if handling == bgp.ERROR_HANDLING_NONE ||
+	// handling == bgp.ERROR_HANDLING_ATTRIBUTE_DISCARD {" ... "if hv := h.handlingError(m, ve, useRevisedError); hv >
+	// handling {"): the attribute checks run when the decoder reported nothing or only discarded attributes, and
+	// the stronger of the two reactions is kept (c06ReplicaDrift checks that those statements are still in the source)
+	if handling == ERROR_HANDLING_NONE || handling == ERROR_HANDLING_ATTRIBUTE_DISCARD {
 		ok, ve := ValidateUpdateMsg(m.Body.(*BGPUpdate), rf, pt != c06lib.IBGP, pt == c06lib.Confed, false)
 		if !ok {
 			me, isme := ve.(*MessageError)
